@@ -2,17 +2,22 @@ package main
 
 import (
 	"bytes"
+	"context"
+	"crypto/tls"
 	"encoding/json"
 	"fmt"
 	"hash/fnv"
 	"io"
 	"net"
+	"net/http"
+	"os"
 	"sort"
 	"strconv"
 	"strings"
 	"time"
 
 	xhttp2 "golang.org/x/net/http2"
+	"golang.org/x/net/http2/h2c"
 	xhpack "golang.org/x/net/http2/hpack"
 	v2 "mosn.io/mosn/pkg/config/v2"
 	"verif/e2e"
@@ -65,7 +70,7 @@ type pstream struct {
 	lost    bool // reset by MOSN
 	prime   bool
 	hdrSeen bool
-	out     chan e2e.Outcome // cli: what the HTTP/1 downstream client saw
+	out     chan outcome // cli: what the HTTP/1 downstream client saw
 }
 
 type peer struct {
@@ -73,7 +78,7 @@ type peer struct {
 	c      net.Conn
 	fr     *xhttp2.Framer
 	frames chan finfo
-	tr     *vh.Trace
+	tr     *ftrace
 
 	hbuf bytes.Buffer
 	henc *xhpack.Encoder
@@ -93,10 +98,12 @@ type peer struct {
 	blockSid uint32
 	block    []byte
 	blockES  bool
+
+	nfail *int // failures seen by this driver (the run stops early after a few: the evidence is in the trace)
 }
 
-func newPeer(dir string, c net.Conn, tr *vh.Trace) *peer {
-	p := &peer{dir: dir, c: c, tr: tr, frames: make(chan finfo, 4096), streams: map[uint32]*pstream{}, planned: map[string]*pstream{},
+func newPeer(dir string, c net.Conn, tr *ftrace, nfail *int) *peer {
+	p := &peer{dir: dir, c: c, tr: tr, nfail: nfail, frames: make(chan finfo, 4096), streams: map[uint32]*pstream{}, planned: map[string]*pstream{},
 		iws: 65535, mfs: 16384, cgrant: 65535, decMax: 4096, needUpd: -1, nextID: 1}
 	p.fr = xhttp2.NewFramer(c, c)
 	p.henc = xhpack.NewEncoder(&p.hbuf)
@@ -140,7 +147,18 @@ func (p *peer) reader() {
 	}
 }
 
+var debug = os.Getenv("C18_DEBUG") != ""
+
+func dbg(f string, a ...interface{}) {
+	if debug {
+		fmt.Fprintf(os.Stderr, time.Now().Format("15:04:05.000 ")+f+"\n", a...)
+	}
+}
+
 func (p *peer) fail(what string, kv vh.Ev) {
+	dbg("FAIL %s %v", what, kv)
+	*p.nfail++
+	defer p.tr.Flush()
 	ev := vh.Ev{"ev": "err", "what": what, "dir": p.dir}
 	for k, v := range kv {
 		ev[k] = v
@@ -175,6 +193,7 @@ func (p *peer) pump(until func() bool, d time.Duration) bool {
 }
 
 func (p *peer) handle(fi finfo) {
+	dbg("  <- %v sid=%d len=%d flags=%x err=%v", fi.typ, fi.sid, fi.length, fi.flags, fi.err)
 	if fi.err != nil {
 		if !p.dead {
 			p.fail("connection-lost", vh.Ev{"detail": fi.err.Error()})
@@ -259,6 +278,7 @@ func (p *peer) headersDone() {
 		}
 		defer p.kill("hpack-context-lost") // the compression context cannot be trusted any more
 	}
+	dbg("  hdr sid=%d es=%v ok=%v why=%s fields=%v", sid, es, ok, why, fields)
 	st := p.streams[sid]
 	if p.dir == "cli" && st == nil {
 		// a new request coming out of MOSN's HTTP/2 client
@@ -368,6 +388,9 @@ func (p *peer) sync() {
 	}
 	if !p.dead {
 		p.tr.Emit(vh.Ev{"ev": "sync", "to": !ok})
+		if !ok {
+			*p.nfail++
+		}
 	}
 }
 
@@ -419,12 +442,21 @@ func (p *peer) writeHeaders(sid uint32, endStream bool, kv ...string) {
 
 type env struct {
 	dir     string
-	tr      *vh.Trace
-	srvAddr string       // MOSN's HTTP/2 listener (dir srv)
-	cliAddr string       // MOSN's HTTP/1 listener whose upstream is the peer (dir cli)
-	ln      net.Listener // the peer as HTTP/2 upstream server (dir cli)
+	tr      *ftrace
+	srvAddr string            // MOSN's HTTP/2 listener (dir srv)
+	cliAddr string            // MOSN's HTTP/1 listener whose upstream is the peer (dir cli)
+	ln      net.Listener      // the peer as HTTP/2 upstream server (dir cli)
+	h2c     *xhttp2.Transport // the downstream client (dir cli)
 	p       *peer
 	ntok    int
+	nfail   int
+	cancels []context.CancelFunc // outstanding downstream requests (dir cli)
+}
+
+func (e *env) reqCtx() context.Context {
+	ctx, cancel := context.WithTimeout(context.Background(), 120*time.Second)
+	e.cancels = append(e.cancels, cancel)
+	return ctx
 }
 
 func (e *env) token() string { e.ntok++; return fmt.Sprintf("t%d", e.ntok) }
@@ -442,19 +474,43 @@ func (e *env) request(body int, prime bool) *pstream {
 			"x-script", fmt.Sprintf("big%d", body), "x-token", st.tok)
 		return st
 	}
-	st.out = make(chan e2e.Outcome, 1)
+	st.out = make(chan outcome, 1)
 	p.planned[st.tok] = st
-	go func() {
-		c, err := e2e.DialHTTP(e.cliAddr)
-		if err != nil {
-			st.out <- e2e.Outcome{Kind: "error", Err: err.Error()}
-			return
-		}
-		defer c.Close()
-		c.Send("POST", "/up", map[string]string{"X-Token": st.tok}, strings.Repeat("x", body))
-		st.out <- c.Recv(120*time.Second, 0)
-	}()
+	go e.downstream(e.reqCtx(), "POST", st.tok, body, st.out)
 	return st
+}
+
+type outcome struct {
+	Kind   string
+	Status int
+	Err    string
+}
+
+// downstream sends one request into MOSN's listener with the reference HTTP/2 client (prior knowledge, clear text).
+func (e *env) downstream(ctx context.Context, method, tok string, body int, out chan outcome) {
+	var rd io.Reader
+	if method == "POST" {
+		rd = strings.NewReader(strings.Repeat("x", body))
+	}
+	req, err := http.NewRequestWithContext(ctx, method, "http://"+e.cliAddr+"/up", rd)
+	if err != nil {
+		out <- outcome{Kind: "error", Err: err.Error()}
+		return
+	}
+	req.Header.Set("X-Token", tok)
+	defer func() {
+		if r := recover(); r != nil {
+			out <- outcome{Kind: "error", Err: fmt.Sprint(r)}
+		}
+	}()
+	resp, err := e.h2c.RoundTrip(req)
+	if err != nil {
+		out <- outcome{Kind: "error", Err: err.Error()}
+		return
+	}
+	io.Copy(io.Discard, resp.Body)
+	resp.Body.Close()
+	out <- outcome{Kind: "response", Status: resp.StatusCode}
 }
 
 // opened waits until the requests have become streams the peer knows.
@@ -510,22 +566,29 @@ func (e *env) connect() bool {
 		c, err := net.DialTimeout("tcp", e.srvAddr, 5*time.Second)
 		vh.Must(err, "dial mosn")
 		c.Write([]byte(clientPreface))
-		e.p = newPeer("srv", c, e.tr)
+		e.p = newPeer("srv", c, e.tr, &e.nfail)
 		e.p.settings(65535, 16384, -1)
 		return !e.p.dead
 	}
-	// MOSN dials when the first request needs the upstream
-	warm := &pstream{tok: e.token(), out: make(chan e2e.Outcome, 1)}
-	go func() {
-		c, err := e2e.DialHTTP(e.cliAddr)
-		if err != nil {
-			warm.out <- e2e.Outcome{Kind: "error", Err: err.Error()}
-			return
+	// give up what was under way on the lost connection, and what MOSN may have dialled for it meanwhile
+	for _, c := range e.cancels {
+		c()
+	}
+	e.cancels = nil
+	if e.p != nil {
+		time.Sleep(300 * time.Millisecond)
+		for {
+			e.ln.(*net.TCPListener).SetDeadline(time.Now().Add(300 * time.Millisecond))
+			c, err := e.ln.Accept()
+			if err != nil {
+				break
+			}
+			c.Close()
 		}
-		defer c.Close()
-		c.Send("GET", "/up", map[string]string{"X-Token": warm.tok}, "")
-		warm.out <- c.Recv(120*time.Second, 0)
-	}()
+	}
+	// MOSN dials when the first request needs the upstream
+	warm := &pstream{tok: e.token(), out: make(chan outcome, 1)}
+	go e.downstream(e.reqCtx(), "GET", warm.tok, 0, warm.out)
 	e.ln.(*net.TCPListener).SetDeadline(time.Now().Add(stepDeadline))
 	c, err := e.ln.Accept()
 	vh.Must(err, "mosn did not connect to the upstream peer")
@@ -537,7 +600,7 @@ func (e *env) connect() bool {
 	if string(buf) != clientPreface {
 		vh.Must(fmt.Errorf("%q", buf), "client preface")
 	}
-	e.p = newPeer("cli", c, e.tr)
+	e.p = newPeer("cli", c, e.tr, &e.nfail)
 	e.p.planned[warm.tok] = warm
 	e.p.settings(65535, 16384, -1)
 	e.opened([]*pstream{warm})
@@ -569,6 +632,7 @@ func (e *env) prime(target int) {
 }
 
 func (e *env) runCase(c flCase, scale int, h uint64) {
+	dbg("case %+v", c)
 	if !e.connect() {
 		return
 	}
@@ -631,29 +695,30 @@ func (e *env) runCase(c flCase, scale int, h uint64) {
 }
 
 func runFlow(casesPath, tracePath, dir string, scale int, useStream bool, tmp string) {
-	tr := vh.NewTrace(tracePath)
+	tr := newFtrace(tracePath)
 	defer tr.Close()
-	reg := e2e.NewRegistry()
-	up := e2e.NewHTTPUpstream("u1", reg)
-	defer up.Close()
+	upAddr := startUpstream()
 	ln, err := net.Listen("tcp", "127.0.0.1:0")
 	vh.Must(err, "peer listener")
 	defer ln.Close()
 	e := &env{dir: dir, tr: tr, srvAddr: e2e.FreeAddr(), cliAddr: e2e.FreeAddr(), ln: ln}
+	e.h2c = &xhttp2.Transport{AllowHTTP: true, DialTLSContext: func(ctx context.Context, network, addr string, _ *tls.Config) (net.Conn, error) {
+		return net.DialTimeout(network, addr, 5*time.Second)
+	}}
 	ext := func(l *v2.Listener) {
 		if useStream {
-			l.FilterChains[0].Filters[0].Config["extend_config"] = map[string]interface{}{"http2_use_stream": true}
+			l.FilterChains[0].Filters[0].Config["extend_config"] = map[string]interface{}{"Http2": map[string]interface{}{"http2_use_stream": true}}
 		}
 	}
-	lsrv := e2e.BuildListener(e2e.ListenerSpec{Name: "c18srv", Addr: e.srvAddr, Downstream: "Http2", Upstream: "Http1",
+	lsrv := e2e.BuildListener(e2e.ListenerSpec{Name: "c18srv", Addr: e.srvAddr, Downstream: "Http2", Upstream: "Http2",
 		Routes: []e2e.RouteSpec{{Prefix: "/", Cluster: "u1"}}, Extra: ext})
-	lcli := e2e.BuildListener(e2e.ListenerSpec{Name: "c18cli", Addr: e.cliAddr, Downstream: "Http1", Upstream: "Http2",
+	lcli := e2e.BuildListener(e2e.ListenerSpec{Name: "c18cli", Addr: e.cliAddr, Downstream: "Http2", Upstream: "Http2",
 		Routes: []e2e.RouteSpec{{Prefix: "/", Cluster: "u2"}}, Extra: ext})
-	clusters := e2e.BuildClusters([]e2e.ClusterSpec{{Name: "u1", Hosts: []string{up.Addr}}, {Name: "u2", Hosts: []string{ln.Addr().String()}}})
+	clusters := e2e.BuildClusters([]e2e.ClusterSpec{{Name: "u1", Hosts: []string{upAddr}}, {Name: "u2", Hosts: []string{ln.Addr().String()}}})
 	m := e2e.StartMosn(e2e.BuildConfig([]v2.Listener{lsrv, lcli}, clusters, e2e.ScratchLog(tmp)))
 	defer m.Close()
 	vh.Must(e2e.WaitListen(e.srvAddr, 10*time.Second), "mosn http2 listener")
-	vh.Must(e2e.WaitListen(e.cliAddr, 10*time.Second), "mosn http1 listener")
+	vh.Must(e2e.WaitListen(e.cliAddr, 10*time.Second), "mosn second listener")
 
 	seed := uint64(vh.Seed())
 	n := 0
@@ -666,9 +731,41 @@ func runFlow(casesPath, tracePath, dir string, scale int, useStream bool, tmp st
 		hh.Write(raw)
 		h := hh.Sum64() ^ seed*0x9e3779b97f4a7c15
 		e.runCase(c, scale, h)
+		tr.Flush()
 		n++
+		if len(e.cancels) > 64 {
+			for _, c := range e.cancels[:len(e.cancels)-16] {
+				c()
+			}
+			e.cancels = append([]context.CancelFunc(nil), e.cancels[len(e.cancels)-16:]...)
+		}
+		if e.nfail >= 3 {
+			return errEnough
+		}
 		return nil
 	})
-	vh.Must(err, "flow cases")
+	if err != errEnough {
+		vh.Must(err, "flow cases")
+	}
 	fmt.Printf("flow dir=%s scale=%d cases=%d events=%d\n", dir, scale, n, tr.Len())
+}
+
+var errEnough = fmt.Errorf("enough failures recorded")
+
+// startUpstream runs the reference HTTP/2 server (clear text, prior knowledge) behind MOSN for dir = srv:
+// X-Script: big<N> is answered with N bytes 'x', the token is echoed.
+func startUpstream() string {
+	ln, err := net.Listen("tcp", "127.0.0.1:0")
+	vh.Must(err, "upstream listener")
+	h := http.HandlerFunc(func(w http.ResponseWriter, r *http.Request) {
+		io.Copy(io.Discard, r.Body)
+		n, _ := strconv.Atoi(strings.TrimPrefix(r.Header.Get("X-Script"), "big"))
+		w.Header().Set("X-Token", r.Header.Get("X-Token"))
+		w.Header().Set("Content-Length", strconv.Itoa(n))
+		w.WriteHeader(200)
+		w.Write(bytes.Repeat([]byte{'x'}, n))
+	})
+	srv := &http.Server{Handler: h2c.NewHandler(h, &xhttp2.Server{})}
+	go srv.Serve(ln)
+	return ln.Addr().String()
 }
